@@ -26,7 +26,9 @@ theorem C16_src_alloc_twins (cls cls' : String) (fs fs' : List (String × Py.Val
   obtain ⟨gs', h1', h2', _⟩ := C14_src_alloc_async cls' fs' c h'
   exact ⟨gs, gs', h1, h1', by rw [h2, h2']⟩
 
-example : Src.AdbDevice_max_chunk_size (.obj "AdbDevice" [("_maxdata", .int 262144)])
-    = Src.AdbDeviceAsync_max_chunk_size (.obj "AdbDeviceAsync" [("_maxdata", .int 262144)]) := by rfl
+/-- non-vacuity: the hypotheses are met by concrete objects of the two classes -/
+example : Src.AdbDevice_max_chunk_size (.obj "AdbDevice" [("_maxdata", .int 262144), ("_local_id", .int 3)])
+    = Src.AdbDeviceAsync_max_chunk_size (.obj "AdbDeviceAsync" [("_local_id", .int 9), ("_maxdata", .int 262144)]) :=
+  C16_src_max_chunk_twins "AdbDevice" "AdbDeviceAsync" _ _ 262144 rfl rfl
 
 end Adb
